@@ -115,9 +115,8 @@ type CSVLogConfig struct {
 // CSVLog generates CSV export of the log
 func CSVLog(logStream io.Reader, c CSVLogConfig) error {
 	r := NewCSVReporter(c.ReporterConfig)
-	defer r.Flush()
 	f := filter.GetIntervalNodeFilter(c.FilterConfig)
-	return utils.WalkNodesInStream(logStream, c.DateFormat, c.ParserConfig, f, r)
+	return utils.FinishReport(r, utils.WalkNodesInStream(logStream, c.DateFormat, c.ParserConfig, f, r))
 }
 
 type CSVDatabaseConfig struct {
@@ -128,9 +127,8 @@ type CSVDatabaseConfig struct {
 // CSVDatabase generates CSV export of the database
 func CSVDatabase(dbStream io.Reader, cdc CSVDatabaseConfig) error {
 	r := NewCSVDatabaseReporter(cdc.ReporterConfig)
-	defer r.Flush()
 
-	return parser.ParseStreamCallback(dbStream, cdc.ParserConfig, func(n *shared.ParserNode, err error) (stop bool, cbError error) {
+	return utils.FinishReport(r, parser.ParseStreamCallback(dbStream, cdc.ParserConfig, func(n *shared.ParserNode, err error) (stop bool, cbError error) {
 		if err != nil {
 			return true, err
 		}
@@ -138,7 +136,7 @@ func CSVDatabase(dbStream io.Reader, cdc CSVDatabaseConfig) error {
 			return true, err
 		}
 		return false, nil
-	})
+	}))
 }
 
 type CSVDatabaseResolvedConfig struct {
